@@ -62,9 +62,16 @@ template<class Res>
 void check_limits(std::string const& what)
 {
     using R = range_of<Res>;
-    Big mx = value_of(std::numeric_limits<Res>::max());
-    Big lw = value_of(std::numeric_limits<Res>::lowest());
+    Big mx, lw;
+    vf::Outcome o = vf::run([&] {
+        mx = value_of(std::numeric_limits<Res>::max());
+        lw = value_of(std::numeric_limits<Res>::lowest());
+    });
     vf::validated(2);
+    if (!o.ok()) {
+        vf::violation("numeric_limits/" + o.str(), what, what + ": evaluating numeric_limits max()/lowest() for " + std::to_string(R::D) + " digits: " + o.str());
+        return;
+    }
     if (mx != R::hi() || lw != R::lo())
         vf::violation("numeric_limits", what, what + ": numeric_limits reports [" + lw.str() + "," + mx.str() + "] for " + std::to_string(R::D) + " digits, expected [" + R::lo().str() + "," + R::hi().str() + "]");
 }
@@ -299,8 +306,9 @@ static void group()
     values_row<VF_PART, Fam32>(std::make_integer_sequence<int, 7>{});
 #elif VF_PART >= 3000
     // narrow Narrowest types: results land on 8, 15, 16, 17, 31, 32 digits from below the storage ladder's rungs
-    corners_row<VF_PART - 3000, Fam8, 1, 7, 8, 9, 15, 16>();
-    corners_row<VF_PART - 3000, Fam16, 1, 7, 8, 9, 15, 16>();
+    // (operand digits stay below 16: the results, not the operands, are to land on the 16-digit rung)
+    corners_row<VF_PART - 3000, Fam8, 1, 7, 8, 9, 15>();
+    corners_row<VF_PART - 3000, Fam16, 1, 7, 8, 9, 15>();
 #elif VF_PART >= 2000
     constexpr int D = VF_PART - 2000;
     prog_builtin<D, false, Fam32, i8>();
